@@ -53,10 +53,12 @@ type secFM struct{ secret string }
 func (x secFM) Format(st fmt.State, verb rune) {
 	if p, ok := st.(redact.SafePrinter); ok {
 		p.SafeString("fm:")
-		p.Print(x.secret)
+		p.Print(x.secret, 7, nil, []interface{}{x.secret, 1.5})
+		p.Printf("|%v|%d|%s", x.secret, 3, redact.Safe("lit"))
 		return
 	}
-	fmt.Fprintf(st, "fm:%s", x.secret)
+	fmt.Fprint(st, "fm:", x.secret, 7, nil, []interface{}{x.secret, 1.5})
+	fmt.Fprintf(st, "|%v|%d|%s", x.secret, 3, "lit")
 }
 
 type secErr struct{ secret string }
